@@ -4,7 +4,7 @@ from vaa_common import HDR, monitor_rows
 from c04 import hist
 
 def run(ctx):
-    core.run_extract(ctx, ["vaa_consts"])
+    core.run_extract(ctx, ["vaa_consts", "vaa_codec"])
     core.coq_prove(ctx, "C05")
     if ctx.tier == "thorough":
         core.coq_thorough_audit(ctx, "C05")
